@@ -853,6 +853,9 @@ func Run(pl *Plan, logOn bool) (*verifh.Violation, *runInfo) {
 	if !pl.RefAfter {
 		runRef()
 	}
+	if prop == "C08" {
+		absorb(rd)
+	}
 	rd.Log = rd.Log[:0]
 
 	// the reference run itself must not have touched caller data (sequential C12)
@@ -1057,10 +1060,11 @@ func clip(s string) string {
 //     the bytes occur in the stream at all.
 
 type provenance struct {
-	data []byte
-	used []bool
-	idx  map[uint32][]int32 // 4-gram -> positions (PRNG streams only)
-	hi   []bool             // position belongs to a high-entropy stream
+	lowHas [256]bool // byte value occurs somewhere in a low-entropy delivery
+	data   []byte
+	used   []bool
+	idx    map[uint32][]int32 // 4-gram -> positions (PRNG streams only)
+	hi     []bool             // position belongs to a high-entropy stream
 }
 
 var prov = provenance{idx: map[uint32][]int32{}}
@@ -1078,6 +1082,11 @@ func (pv *provenance) add(b []byte, high bool) int {
 		*pv = provenance{idx: map[uint32][]int32{}}
 	}
 	base := len(pv.data)
+	if !high {
+		for _, c := range b {
+			pv.lowHas[c] = true
+		}
+	}
 	pv.data = append(pv.data, b...)
 	for range b {
 		pv.used = append(pv.used, false)
@@ -1119,13 +1128,7 @@ func (pv *provenance) trace(b []byte) string {
 		if bestL < 4 && rem >= 4 {
 			// no unused occurrence of the next four bytes among high-entropy deliveries:
 			// accept only if they occur in a low-entropy stream (cannot be located there)
-			ok := false
-			for p := 0; p+rem <= len(pv.data) && p < len(pv.data); p++ {
-				if !pv.hi[p] && pv.data[p] == b[pos] {
-					ok = true
-					break
-				}
-			}
+			ok := pv.lowHas[b[pos]]
 			if ok {
 				pos++
 				continue
@@ -1142,6 +1145,20 @@ func (pv *provenance) trace(b []byte) string {
 		pos += bestL
 	}
 	return ""
+}
+
+// absorb records what the source delivered outside the judged phase (warm-up
+// history, reference calls): a prefetching implementation may hand those bytes
+// out later.
+func absorb(rd *verifrt.Reader) {
+	high := rd.Kind == 3
+	for _, rec := range rd.Log {
+		chunk := make([]byte, rec.N)
+		for i := 0; i < rec.N; i++ {
+			chunk[i] = rd.ByteAt(rec.Off + uint64(i))
+		}
+		prov.add(chunk, high)
+	}
 }
 
 func checkC08(pl *Plan, tasks []*taskState, rd *verifrt.Reader, start uint64) *verifh.Violation {
